@@ -41,7 +41,11 @@ Prelude ==
   "type Fo = { name: string; children: Fo[] };\ntype Cm = { text: string; replies: Cm[] };\n" \o
   "type FsEv = { type: \"created\"; payload: { root: Fo } } | { type: \"removed\"; payload: { path: string } };\n" \o
   "type ThEv = { type: \"posted\"; payload: { top: Cm } } | { type: \"locked\"; payload: { by: string } };\n" \o
-  "type Sem1 = FsEv[\"payload\"];\n"
+  "type Sem1 = FsEv[\"payload\"];\n" \o
+  \* recursive container aliases (they reach the semantic engine through Exclude / conditional / keyof productions)
+  "type MT = Map<string, MT>;\ntype MD = Map<string, MD | number>;\ntype ST = Set<ST | string>;\ntype AT = AT[];\n" \o
+  \* an enum with a string-literal member name, a union alias that mentions itself, a constant initialised from its own member
+  "enum ES { \"a-b\" = 1, C = 2 }\ntype SU = \"a\" | SU;\nconst sa = sa.x;\ntype E0 = \"\";\n"
 
 Leaves == <<
   "string", "number", "boolean", "null", "undefined", "void", "any", "unknown", "never", "object", "symbol", "bigint",
@@ -52,7 +56,9 @@ Leaves == <<
   "typeof cyc1", "U4", "U5", "`line1\nline2${string}`", "`a\\b${number}`", "`q\"uote${string}`", "\"multi\\nline\"",
   "{}", "[]", "this", "unique symbol", "import(\"./m\").X", "import(\"./missing\").X",
   "IBadE", "IBadE.Low", "ICallE", "IBadT", "IBadI", "IRf", "import(\"./m\").BadE", "import(\"./m\").CallE", "import(\"./m\").BadT",
-  "import(\"./m\").Rf", "ThEv[\"payload\"]", "FsEv[\"payload\"]", "(ThEv | FsEv)[\"payload\"]", "Fo", "Sem1"
+  "import(\"./m\").Rf", "ThEv[\"payload\"]", "FsEv[\"payload\"]", "(ThEv | FsEv)[\"payload\"]", "Fo", "Sem1",
+  "MT", "MD", "ST", "AT", "ES", "ES.C", "SU", "typeof sa", "`${E0}${\"\"}`", "`a${\"\" | \"b\"}`", "[id: string, ...values: number[]]",
+  "[string, ...number[], boolean]", "3.14159", "1e21", "-0"
 >>
 
 \* wrappers: <<prefix, suffix>> around the current expression X
